@@ -58,7 +58,9 @@ def one(ctx: Ctx, cs, pname, over, core=True, max_sets=24):
             if sep_mode == 0:
                 sep = '\n'
                 frags = ['\n'.join(src_lines[a:b]) for a, b in frag_ranges]
-                kwargs = {} if ci % 2 else {'separator': '\n'}
+                # the newline separator in its three forms: omitted, explicit, and None (Optional[str]: None stands for the default)
+                kwargs = [{}, {'separator': '\n'}, {'separator': None}][ci % 3]
+                ctx.mon(f'separator_form:{["omitted", "newline", "None"][ci % 3]}')
             elif sep_mode == 2:
                 # newline separator AND fragments that end with a newline: blank lines between the fragments
                 sep = '\n'
